@@ -57,7 +57,14 @@ pub fn check_label(env: &Env, p: Prof, s: &str, st: &mut Stats) -> Option<bool> 
         };
         st.violation(
             kind,
-            || Case::new("dir").s(s).x(json!(p.name())),
+            || {
+                let c = Case::new("dir").s(s).x(json!(p.name()));
+                if crate::subject::use_default() {
+                    c.n(1) // found through a Default-constructed profile
+                } else {
+                    c
+                }
+            },
             format!("{} (classes {:?})", show_out(&exp), q),
             show_out(&got),
         );
@@ -324,6 +331,8 @@ pub fn run(env: &Env, run: &Run) -> (Stats, Coverage) {
         for lab in [vec![cp], vec![r, cp], vec![l, cp, l]] {
             let s = from_cps(&lab);
             check_label(env, Prof::Ucm, &s, st);
+            // ... and through a profile obtained from Default (the other public constructor)
+            crate::subject::with_default_ctor(|| check_label(env, Prof::Ucp, &s, st));
         }
     }));
     // (b'') neighbour pairs: every assigned non-L code point b next to every other assigned code
@@ -407,7 +416,11 @@ pub fn replay(env: &Env, case: &Case) -> Vec<Violation> {
     let mut st = Stats::default();
     if case.op == "dir" {
         if let Some(p) = case.extra.as_str().and_then(Prof::from_name) {
-            check_label(env, p, &case.str_at(0), &mut st);
+            if case.nums.first() == Some(&1) {
+                crate::subject::with_default_ctor(|| check_label(env, p, &case.str_at(0), &mut st));
+            } else {
+                check_label(env, p, &case.str_at(0), &mut st);
+            }
         }
     }
     st.violations
